@@ -52,7 +52,21 @@ def scripted(draw):
         c["source"] = distinct_source(i)
         if minor >= 5:
             c["id"] = "c%d" % i
+    twins = None
+    if n >= 3 and draw(st.sampled_from(range(8))) == 3:
+        # two adjacent copy-pasted cells that differ in their last line only (a plot cell duplicated and adapted)
+        k = draw(st.integers(0, n - 2))
+        body = "".join("value_%d = compute(step=%d, mode='fast')\n" % (j, j) for j in range(12))
+        for j, which in ((k, 1), (k + 1, 2)):
+            cells[j]["source"] = body + "plot(value_%d)" % which
+        twins = k
     owners = [draw(st.sampled_from(["L", "R", "N", "N"])) for _ in range(n)]
+    forced_acts = {}
+    if twins is not None:
+        # one side deletes one twin, the other edits (or deletes) the other twin
+        sa, sb = draw(st.sampled_from([("L", "R"), ("R", "L")]))
+        owners[twins], owners[twins + 1] = sa, sb
+        forced_acts = dict(zip((twins, twins + 1), draw(st.sampled_from([("source", "delete"), ("delete", "source"), ("source", "delete"), ("metadata", "delete")]))))
     if "L" not in owners:
         owners[draw(st.integers(0, n - 1))] = "L"
     if "R" not in owners:
@@ -67,7 +81,7 @@ def scripted(draw):
             continue
         kinds = ["source", "outputs", "metadata", "ec", "delete", "type_only", "source_exotic", "stream_cr"] if c["cell_type"] == "code" else \
             ["source", "metadata", "delete", "attach", "type_only", "source_exotic"]
-        a = draw(st.sampled_from(kinds))
+        a = forced_acts.get(i) or draw(st.sampled_from(kinds))
         acts.append(a)
         if a == "delete":
             new[o][i] = None
@@ -163,7 +177,7 @@ def scripted(draw):
         return nb
     adjacent = any(owners[k] != "N" and owners[k + 1] != "N" for k in range(n - 1))
     return {"kind": "nb", "base": base, "local": build(["L"]), "remote": build(["R"]), "expected": build(["L", "R"]),
-            "owners": owners, "actions": acts, "adjacent": adjacent,
+            "owners": owners, "actions": acts, "adjacent": adjacent, "near_duplicate_cells_at": twins,
             "inserts": {s_: sorted(inserts[s_]) for s_ in ("L", "R")}}
 
 
@@ -417,4 +431,9 @@ def finalize(tier, merged):
     return {"diff_touches_unowned_cells_share": round(ex / nb, 4) if nb else 0.0}
 
 
-DISCRIMINATORS = {}
+def _twins(case, f):
+    """The base holds two adjacent cells that differ in one line only (see `scripted`): the aligner cannot tell such twins apart."""
+    return case.get("near_duplicate_cells_at") is not None and "id" not in case["base"]["cells"][0]
+
+
+DISCRIMINATORS = {"adjacent_near_duplicate_cells_without_ids": _twins}
